@@ -9,6 +9,9 @@ import translate_solver as ts
 
 THEOREMS = [
     "Claripy.Props.C11.C11_mro_solver", "Claripy.Props.C11.C11_mro_cacheless", "Claripy.Props.C11.C11_mro_strings",
+    "Claripy.Props.C11.C11_satisfiable_exact", "Claripy.Props.C11.C11_batch_eval_correct", "Claripy.Props.C11.C11_extrema_correct",
+    "Claripy.Solver.z3Check_cases", "Claripy.Solver.batchEvalLoop_spec", "Claripy.Solver.extremaLoop_spec",
+    "Claripy.Solver.key_wrap", "Claripy.Solver.key_range", "Claripy.Solver.key_inj",
 ]
 TESTS = []
 CLASSES = ["Solver", "SolverCacheless", "SolverStrings"]
